@@ -86,6 +86,7 @@ type upload struct {
 	n     int // number of responses given (for relocation)
 	state string
 	patch int
+	small bool // a chunk below the advertised minimum was received (only the last chunk may be short)
 }
 
 // Cfg are the behaviour switches of a host.
@@ -99,6 +100,7 @@ type Cfg struct {
 	TagPage         int
 	CatalogPage     int
 	ChunkMin        int64
+	EnforceChunkMin bool // refuse further data once a non-final chunk below ChunkMin was sent
 	AckPlan         []int  // i-th PATCH of a session: bytes of the chunk to accept (-1 / beyond = all)
 	AckStyle        string // "202" (default) or "416"
 	Early201        bool   // answer the PATCH that completes nothing special with 201 instead of 202
@@ -330,7 +332,15 @@ func (h *Host) ServeHTTP(w http.ResponseWriter, r *http.Request) {
 			break
 		}
 	}
-	body, _ := io.ReadAll(r.Body)
+	body, rerr := io.ReadAll(r.Body)
+	if rerr != nil {
+		// the request body ended before Content-Length bytes arrived: a server never applies such a request
+		h.W.mu.Lock()
+		h.W.Anomalies = append(h.W.Anomalies, fmt.Sprintf("%s %s: request body truncated (%v)", r.Method, r.URL.Path, rerr))
+		h.W.mu.Unlock()
+		w.WriteHeader(400)
+		return
+	}
 	ev := &Event{Host: h.Name, Method: r.Method, Path: r.URL.Path, Query: r.URL.RawQuery, BodyLen: len(body),
 		Range: r.Header.Get("Range"), ContentRange: r.Header.Get("Content-Range"), Auth: r.Header.Get("Authorization"),
 		Mutating: r.Method != "GET" && r.Method != "HEAD", Header: r.Header.Clone(), Body: body, RawURL: r.URL.String()}
@@ -983,9 +993,13 @@ func (h *Host) upload(ev *Event, r *http.Request, body []byte) *response {
 				return resp
 			}
 		}
+		if h.Cfg.EnforceChunkMin && u.small {
+			return h.errResp(400, "BLOB_UPLOAD_INVALID", fmt.Sprintf("an earlier chunk was below the minimum chunk size %d and was not the last one", h.Cfg.ChunkMin))
+		}
 		if h.Cfg.ChunkMin > 0 && int64(len(body)) < h.Cfg.ChunkMin {
-			// only the final chunk may be short; the model cannot know yet, so it notes it
+			// only the final chunk may be short; whether this one is final is known when more data arrives
 			ev.Note += " short-chunk"
+			u.small = true
 		}
 		accept := len(body)
 		if idx < len(h.Cfg.AckPlan) && h.Cfg.AckPlan[idx] >= 0 && h.Cfg.AckPlan[idx] < accept {
@@ -1012,6 +1026,9 @@ func (h *Host) upload(ev *Event, r *http.Request, body []byte) *response {
 		dg := q.Get("digest")
 		if dg == "" {
 			return h.errResp(400, "DIGEST_INVALID", "digest parameter missing")
+		}
+		if h.Cfg.EnforceChunkMin && u.small && len(body) > 0 {
+			return h.errResp(400, "BLOB_UPLOAD_INVALID", "an earlier chunk was below the minimum chunk size")
 		}
 		if len(body) > 0 && len(u.buf) == 0 && h.Cfg.RefuseMonoPut {
 			return h.errResp(400, "UNSUPPORTED", "monolithic put refused")
